@@ -111,7 +111,7 @@ def showKeys (m : List RecV) : String :=
   let ks := (m.map (fun r => s!"{r.key}:{r.val}")).toArray.qsort (· < ·) |>.toList
   "keys=[" ++ ",".intercalate ks ++ "]"
 
-def idOf (n : String) : Nat := match n with | "A" => 1 | "B" => 2 | "C" => 3 | _ => 4
+def idOf (n : String) : Nat := match n with | "A" => 1 | "B" => 2 | "C" => 3 | "D" => 4 | "E" => 5 | "W" => 6 | _ => 7
 
 def step (d : DSt) (line : String) : DSt × String :=
   match words line with
@@ -157,7 +157,7 @@ def step (d : DSt) (line : String) : DSt × String :=
     match act d (.summon (idOf n)) with
     | none =>
       let t : Th := { name := n, id := idOf n, kind := "set", key := k, val := v, stage := "waiting", gen := 0 }
-      ({ d with ths := d.ths ++ [t] }, s!"{n} waiting")
+      ({ d with ths := d.ths ++ [t] }, s!"{n} wait-timeout")
     | some d1 =>
       let t : Th := { name := n, id := idOf n, kind := "set", key := k, val := v, stage := "summoned", gen := (d1.s.th (idOf n)).gen }
       ({ d1 with ths := d1.ths ++ [t] }, s!"{n}@gw.set.summoned")
@@ -169,10 +169,16 @@ def step (d : DSt) (line : String) : DSt × String :=
       match t.kind, t.stage with
       | "set", "waiting" =>
         match act d (.summon t.id) with
-        | none => (d, s!"{n} waiting")
+        | none => (d, s!"{n} wait-timeout")
         | some d1 => (upd d1 "summoned" (d1.s.th t.id).gen, s!"{n}@gw.set.summoned")
       | "set", "summoned" => (d, s!"{n}@gw.set.summoned")
       | "set", "vigil" => (d, s!"{n}@gw.set.vigil")
+      | "del", "draining" =>
+        match destroyFin d t.id with
+        | some d1 =>
+          let (d2, fl) := flag d d1 (if d.cfg.ceasesOnce then "C16-auto-destroy-loses-acked-write" else "C16-double-cease-unblocks-drain")
+          ({ d2 with ths := d2.ths.map (fun u => if u.name == n then { u with stage := "done" } else u) }, s!"{n} done {t.val}" ++ fl)
+        | none => (d, s!"{n} wait-timeout")
       | _, _ => (d, "bad-op")
   | ["spawn", n, "set", k, v] =>
     if d.ths.any (·.name == n) then (d, "bad-op") else
@@ -207,12 +213,43 @@ def step (d : DSt) (line : String) : DSt × String :=
           match act d3 (.cease tid) with
           | some d4 => ({ d4 with ths := d4.ths ++ [{ name := n, id := tid, kind := "del", key := k, val := st, stage := "done", gen := g }] }, s!"{n} done {st}")
           | none => (d, "ERR")
+  | ["spawnv", n, "del", k] =>
+    if d.ths.any (·.name == n) then (d, "bad-op") else
+    if !d.s.live && d.fileV.isEmpty then (d, s!"{n} done NOT_FOUND") else
+    let tid := idOf n
+    match acts d (summonActs d tid) with
+    | none => (d, s!"{n} stuck")
+    | some d1 =>
+      let t : Th := { name := n, id := tid, kind := "del", key := k, val := "", stage := "delvigil", gen := (d1.s.th tid).gen }
+      ({ d1 with ths := d1.ths ++ [t] }, s!"{n}@gw.del.vigil")
+  | ["gow", n] =>
+    match d.ths.find? (·.name == n) with
+    | some t =>
+      if t.kind == "del" && t.stage == "draining" then
+        match destroyFin d t.id with
+        | some d1 =>
+          let (d2, fl) := flag d d1 (if d.cfg.ceasesOnce then "C16-auto-destroy-loses-acked-write" else "C16-double-cease-unblocks-drain")
+          ({ d2 with ths := d2.ths.map (fun u => if u.name == n then { u with stage := "done" } else u) }, s!"{n} done {t.val}" ++ fl)
+        | none => (d, s!"{n} wait-timeout")
+      else (d, "bad-op")
+    | none => (d, "bad-op")
   | ["go", n] =>
     match d.ths.find? (·.name == n) with
     | none => (d, "bad-op")
     | some t =>
       let upd := fun (d' : DSt) (stage : String) => { d' with ths := d'.ths.map (fun u => if u.name == n then { u with stage := stage } else u) }
       match t.kind, t.stage with
+      | "del", "delvigil" =>
+        let (d2, st) := delV d t.gen t.key
+        match act d2 (.del t.id (keyNum t.key)) with
+        | none => (d, "ERR")
+        | some d3 =>
+          let setv := fun (d' : DSt) (stage : String) => { d' with ths := d'.ths.map (fun u => if u.name == n then { u with stage := stage, val := st } else u) }
+          if (d3.s.th t.id).pc == 4 then (setv d3 "draining", s!"{n}@destroy.draining")
+          else if (d3.s.th t.id).pc == 3 then (setv d3 "done", s!"{n} done {st}")
+          else match act d3 (.cease t.id) with
+            | some d4 => (setv d4 "done", s!"{n} done {st}")
+            | none => (d, "ERR")
       | "set", "summoned" =>
         if d.cfg.atomicSummon then (upd d "vigil", s!"{n}@gw.set.vigil") else
         match act d (.begin t.id) with
@@ -222,7 +259,8 @@ def step (d : DSt) (line : String) : DSt × String :=
         let (d1, st) := writeV d t.gen t.key t.val
         match acts d1 [.write t.id (keyNum t.key), .cease t.id] with
         | some d2 =>
-          let (d3, fl) := flag d d2 (if d.orphaned then "C16-summon-replaces-closing-instance" else "C16-idle-close-loses-acked-write")
+          let (d3, fl) := flag d d2 (if d.orphaned then "C16-summon-replaces-closing-instance" else if d.s.debt > 0 then "C16-double-cease-unblocks-drain"
+                                     else "C16-idle-close-loses-acked-write")
           (upd d3 "done", s!"{n} done {st}" ++ fl)
         | none => (d, "ERR")
       | "close", "flushed" =>
@@ -254,7 +292,7 @@ def step (d : DSt) (line : String) : DSt × String :=
         match acts d1 [.closeFlush, .closeDone] with
         | some d2 => (d2, "tick closed")
         | none => (d1, "ERR")
-      else (d1, "tick noclose")
+      else (d1, "tick timeout-noclose")
   | ["stop"] =>
     if d.stopped.isSome then (d, "bad-op") else
     if d.cfg.stopWaitsUntilClosed then
@@ -300,7 +338,8 @@ def run (args : List String) : IO UInt32 := do
   let cfg : Cfg := { destroyRechecks := yes "destroyRechecksAfterDrain",
                      atomicSummon := yes "listenerReadsTouchUnderLock" && yes "summonTakesVigil",
                      summonWaitsForUnmap := arg kv "summonWaitsForUnmap" != "no",
-                     stopWaitsUntilClosed := arg kv "stopWaitsUntilClosed" != "no" }
+                     stopWaitsUntilClosed := arg kv "stopWaitsUntilClosed" != "no",
+                     ceasesOnce := arg kv "ceasesVigilOnce" != "no" }
   lineLoop step { cfg := cfg, s := init [], gens := [], fileV := [], ths := [], next := 10, flagged := false,
                   recreateDropsMarker := arg kv "recreateDropsDeleteMarker" != "no", markers := [], ackDel := [] }
   return 0
